@@ -73,6 +73,11 @@ func c18Check(tier string) int {
 	}
 	b, rerr := os.ReadFile(outFile)
 	if rerr != nil || json.Unmarshal(b, &res) != nil {
+		if strings.Contains(out, "all goroutines in bubble are blocked") || strings.Contains(out, "deadlock") {
+			// the timer blocked forever inside a Reset/Extend call: the bubble (and with it the driver) dies
+			return finishEnum("C18", tier, start, 1, 2, map[string]c06fail{"C18/timer-call-blocks-forever": {"C18/timer-call-blocks-forever", tail(out, 1800)}},
+				[]any{"driver aborted by a deadlocked bubble"}, "sequence enumeration aborted: a Reset/Extend call never returned (deadlocked synctest bubble)", false, nil)
+		}
 		fmt.Fprintln(os.Stderr, "C18 driver did not produce a result:", err, "\n", tail(out, 3000))
 		return 2
 	}
